@@ -372,7 +372,9 @@ class StructGen:
             p['bracket0'] = True
         # avoid accidental shadowing by a block parameter unless asked for
         allparams = {n for s in sc for n in s.params}
-        if segs and segs[0] in allparams and not p.get('bracket0') and r.random() >= self.o['shadow']:
+        if segs and segs[0] in allparams:
+            p.pop('bracket0', None)       # `[name]` of a block-parameter name is finding F17's class (C01 has its witnesses)
+        if segs and segs[0] in allparams and r.random() >= self.o['shadow']:
             if ups == 0 and not p.get('prefix'):
                 pass        # the property says the parameter shadows: keep, the reference handles it
             else:
